@@ -1,6 +1,10 @@
 package props
 
-import "astverif/demuxrules"
+import (
+	"astverif/demuxrules"
+	"astverif/layout"
+	"astverif/ownership"
+)
 
 func init() { register("C02", "other", c02) }
 
@@ -22,4 +26,13 @@ func c02(c *Ctx) {
 		"user callbacks and the logger do not read from the demuxer's reader", "Go semantics of append/slicing/copy", "astikit v0.30.0 BytesIterator summary: Len() is the buffer length, Offset() the read position, Skip may move the offset beyond Len"}
 	demuxrules.New(c.P, r).C02()
 	r.Floor("C02", "obligations", len(r.Obls), 22)
+	// a delivered unit stays what it was: nothing in it aliases a buffer that later calls reuse (rule S3 of C16)
+	r.Floor("S3", "borrowed/owned byte-slice source sites", ownership.BorrowTaint(c.P, r), 10)
+	// the payload of a packet starts after the adaptation field, whatever its length (including the one-byte field):
+	// the whole-packet joints of C01
+	ck := layout.NewBits(c.P)
+	ck.A3(r, c01Joints(c))
+	for _, d := range ck.IP.Diag {
+		r.Unknown("A0", "diag/"+d, "", d)
+	}
 }
